@@ -339,6 +339,7 @@ struct Run {
     std::vector<int> trace_states; // state stack tops after each action (for debugging)
     int max_depth = 0;             // highest number of entries on the state stack
     int discarded_terms = 0, popped_states = 0, recoveries = 0;
+    int terms_examined = 0;        // how many terms (including <eof> or the unlexable one) the driver asked for
 
     std::string show(int id) const {
         const Node& nd = nodes[id];
@@ -363,6 +364,7 @@ Run drive(const Gram& g, const Table& tb, const std::vector<Tok>& toks, int step
     while (true) {
         if (++steps > step_limit) { R.horizon = true; return R; }
         R.max_depth = std::max(R.max_depth, (int)st.size());
+        if (!recovery) R.terms_examined = std::max(R.terms_examined, (int)i + 1);
         if (!recovery && i >= toks.size() && lex_fails_after_last) { R.lex_error = true; return R; }   // the lexer cannot produce the next term
         int t = recovery ? g.err() : (i < toks.size() ? toks[i].term : g.eof());
         Act a = tb.action(st.back(), t);
